@@ -25,6 +25,7 @@ def c2(ctx):
 
 
 def c3(ctx):
+    timing.queries_are_pure(ctx, ["time_at", "bpm_at"])
     timing.bisect_rule(ctx, "time_at", "_tagged_beats")
     timing.bisect_rule(ctx, "bpm_at", "_tagged_beats")
     timing.bisect_census(ctx)
